@@ -25,7 +25,7 @@ var c09Kinds = []string{"empty", "empty", "empty", "up-to-date", "tainted", "sel
 // percent increase being resolved against the nodes the replica set targets (excluded and reserved
 // nodes do not count).
 func TestC09Creation(t *testing.T) {
-	rec := evid.New("TestC09Creation", "C09", "1-12 nodes each in {empty, already served, untolerated taint, node-selector mismatch, reserved for a running canary}; slowStartAdditiveIncrease int or percent, interval 1m/5m, maxParallelPodCreation 1/3/250, sync at T0 + {0, interval-1s, interval, 2.5 interval, 10 interval}; oracle = rate monitor (creates <= bound, percent resolved against targeted nodes); non-trivial = percent increase, at least one excluded/reserved node and at least two empty targeted nodes; distinct by layout+strategy+age")
+	rec := evid.New("TestC09Creation", "C09", "1-12 nodes each in {empty, already served, untolerated taint, node-selector mismatch, reserved for a running canary}; slowStartAdditiveIncrease int or percent, interval 1m/5m, maxParallelPodCreation 1/3/250, one pod creation of the sync optionally refused or stored-but-answered-with-an-error (generic or typed), sync at T0 + {0, interval-1s, interval, 2.5 interval, 10 interval}; oracle = rate monitor (creates <= bound, percent resolved against targeted nodes); non-trivial = percent increase, at least one excluded/reserved node and at least two empty targeted nodes; distinct by layout+strategy+age")
 	t.Cleanup(func() {
 		if !t.Failed() {
 			rec.Done()
@@ -83,7 +83,21 @@ func TestC09Creation(t *testing.T) {
 			})
 		}
 		c.Advance(age)
+		// the answer to one pod creation of the measured sync may be an error: refused (generic or typed), or stored and
+		// answered with an error all the same (generic, or ServerTimeout as for a write whose answer timed out)
+		answer := rapid.SampledFrom([]sim.FaultKind{sim.FaultNone, sim.FaultNone, sim.FaultReject, sim.FaultRejectTyped, sim.FaultLostAnswer, sim.FaultLostAnswerTyped}).Draw(rt, "oneCreateAnswer")
+		nth, seen := rapid.IntRange(0, 2).Draw(rt, "faultedCreate"), 0
+		c.Faults = func(call *sim.Call) sim.FaultKind {
+			if call.Kind == "Pod" && call.Verb == "create" {
+				seen++
+				if seen == nth+1 {
+					return answer
+				}
+			}
+			return sim.FaultNone
+		}
 		r := c.Reconcile(sim.ActorERS, "ns1", active)
+		c.Faults = nil
 		vs := mon.Check(r, on, nil)
 		creates := 0
 		for _, cl := range r.Calls {
@@ -93,8 +107,8 @@ func TestC09Creation(t *testing.T) {
 		}
 		percent := st.RollingUpdate.SlowStartAdditiveIncrease.Type == 1
 		nt := percent && off > 0 && empty >= 2
-		trace := map[string]interface{}{"nodes": kinds, "increase": st.RollingUpdate.SlowStartAdditiveIncrease.String(), "interval": interval.String(), "maxParallelPodCreation": mp, "age": ageK, "creates": creates}
-		rec.Case(nt, evid.FP(kinds, st.RollingUpdate.SlowStartAdditiveIncrease.String(), interval, mp, ageK), fmt.Sprintf("percent=%v", percent), fmt.Sprintf("excluded-nodes=%v", off > 0), fmt.Sprintf("created=%v", creates > 0))
+		trace := map[string]interface{}{"nodes": kinds, "increase": st.RollingUpdate.SlowStartAdditiveIncrease.String(), "interval": interval.String(), "maxParallelPodCreation": mp, "age": ageK, "creates": creates, "oneCreateAnswer": answer.String(), "faultedCreate": nth}
+		rec.Case(nt, evid.FP(kinds, st.RollingUpdate.SlowStartAdditiveIncrease.String(), interval, mp, ageK, answer, nth), fmt.Sprintf("percent=%v", percent), fmt.Sprintf("excluded-nodes=%v", off > 0), fmt.Sprintf("created=%v", creates > 0), fmt.Sprintf("create-answer=%s", answer))
 		rec.Steps(1)
 		if nt && creates > 0 {
 			rec.Sample(trace)
